@@ -295,3 +295,83 @@ def check_binop(got, a, b, ufunc, what="a op b"):
         if got.values.dtype.kind != ek:
             return "%s: dtype %s, expected kind %r (operand dtypes %s, %s; no missing labels)" % (what, got.values.dtype, ek, a.values.dtype, b.values.dtype)
     return None
+
+
+# ---------------------------------------------------------------------------------------
+# C06 / C07: align, reindex
+# ---------------------------------------------------------------------------------------
+def strict_dir(labels):
+    """'inc' / 'dec' / None for a list with >= 2 labels; 'any' for fewer"""
+    if len(labels) < 2:
+        return 'any'
+    try:
+        if all(labels[i] < labels[i + 1] for i in range(len(labels) - 1)):
+            return 'inc'
+        if all(labels[i] > labels[i + 1] for i in range(len(labels) - 1)):
+            return 'dec'
+    except TypeError:
+        pass
+    return None
+
+
+def has_label(lst, x):
+    return any(lab_eq(x, y) for y in lst)
+
+
+def check_cells_from_source(got, src, what, fill_nan=True, fill=None):
+    """every cell of got equals the source cell at the same label coordinate, or the fill where
+    the source does not define that coordinate; and every source cell whose labels all survive
+    appears.  got.dims must equal src.dims."""
+    if tuple(got.dims) != tuple(src.dims):
+        return "%s: dims %r, expected %r" % (what, tuple(got.dims), tuple(src.dims))
+    for pos in itertools.product(*[range(n) for n in got.values.shape]):
+        coord = {d: got.labels[k][p] for k, (d, p) in enumerate(zip(got.dims, pos))}
+        f, v = lookup(src, coord)
+        g = got.values[pos]
+        if f:
+            if not lab_eq(g, v):
+                return "%s: value at %r is %r, the input has %r there" % (what, coord, g, v)
+        else:
+            if fill_nan:
+                if not isnan(g):
+                    return "%s: value at %r is %r but the input has no such labels (expected NaN)" % (what, coord, g)
+            elif not lab_eq(g, fill):
+                return "%s: value at %r is %r, expected fill %r" % (what, coord, g, fill)
+    return None
+
+
+def reindex(m, new, axis, fill=float('nan')):
+    """model of reindex_axis(new, axis): slice i of the result = source slice at the first
+    position of new[i], else all-fill"""
+    k = m.dims.index(axis) if isinstance(axis, str) else axis
+    old = m.labels[k]
+    idx = []
+    for l in new:
+        p = None
+        for i, o in enumerate(old):
+            if lab_eq(o, l):
+                p = i
+                break
+        idx.append(p)
+    missing = any(p is None for p in idx)
+    v = m.values
+    if missing:
+        # loss-free promotion for the fill value
+        fk = np.asarray(fill).dtype.kind
+        if v.dtype.kind in 'iu' and fk == 'f':
+            v = v.astype(float)
+        elif v.dtype.kind == 'b' and fk != 'b':
+            v = v.astype(object)
+    shape = list(v.shape)
+    shape[k] = len(new)
+    out = np.empty(shape, dtype=v.dtype)
+    for i, p in enumerate(idx):
+        sl = [slice(None)] * v.ndim
+        sl[k] = i
+        if p is None:
+            out[tuple(sl)] = fill
+        else:
+            out[tuple(sl)] = np.take(v, p, axis=k)
+    labs = [list(l) for l in m.labels]
+    labs[k] = list(new)
+    return MA(out, m.dims, labs), missing
